@@ -1493,6 +1493,8 @@ class SampleSet(abc.Iterable, abc.Sized):
             return new.relabel_variables(mapping, inplace=True)
 
         elif inplace:  # and not done
+            # the relabelling is applied later, it must not see later changes to the caller's mapping
+            mapping = dict(mapping)
             old_hook = self._result_hook
 
             def new_hook(future):
@@ -1505,6 +1507,8 @@ class SampleSet(abc.Iterable, abc.Sized):
             return self
 
         else:  # neither done nor inplace
+            mapping = dict(mapping)
+
             def hook(sampleset):
                 sampleset.resolve()
                 return sampleset.relabel_variables(mapping, inplace=False)
